@@ -1,5 +1,5 @@
 """C02 -- nothing is recomputed unless something it depends on changed."""
-from contracts import api, api_stages
+from contracts import api, api_stages, introspect_compose, sigs
 from ._api_common import TRUSTED_API, owner, _AnyApiClause
 
 ID = "C02"
@@ -14,4 +14,4 @@ owns = owner("C02")
 
 
 def specs():
-    return [c() for c in api.SPECS]
+    return [c() for c in api.SPECS] + [c() for c in introspect_compose.SPECS] + [c() for c in sigs.SPECS]
